@@ -49,6 +49,12 @@ def points(tier: str) -> List[Dict[str, Any]]:
             for ttl_arg in (None, 300):
                 pts.append({"kind": "peer", "mix": mix, "ttls": "default", "allow": allow, "tc": tc, "c2": None, "chain": 0,
                             "used": used, "ttl_arg": ttl_arg})
+    # unrelated traffic: responses that put *new* records of other services into the cache while the registration waits
+    # between two probes (every new record wakes all waiters of the instance)
+    for noise in ((40, 80), (200,), (40, 80, 200, 260), (174, 349), (1, 176)):
+        for allow, tc in itertools.product((False, True), (None, 100, 250, 300, 349)):
+            pts.append({"kind": "peer", "mix": "v4", "ttls": "default", "allow": allow, "tc": tc, "c2": None, "chain": 0,
+                        "noise": list(noise)})
     for delay in (1, 50, 100, 150):
         for allow in (False, True):
             for mix in ("v4", "dual"):
@@ -196,6 +202,10 @@ def run_point(p: Dict[str, Any], verbose: bool = False) -> Tuple[Optional[Dict[s
                 w.net.inject(a, conflict_pkt(nth_name(desc.name, k + 1), 10 + k), ("10.0.0.60", 5353))
             w.settle()
             tc, c2 = p["tc"], p["c2"]
+            for k, off in enumerate(p.get("noise") or ()):
+                other = wire.encode(70 + k, 0x8400, (), [("PTR", "_other._tcp.local.", 1, 4500, f"n{k}._other._tcp.local."),
+                                                         ("A", f"n{k}.local.", 0x8001, 120, bytes([10, 0, 9, k]))])
+                w.loop.call_at((t0 + off) / 1000, w.net.inject, a, other, ("10.0.0.63", 5353))
             if tc is not None:
                 w.loop.call_at((t0 + tc) / 1000, w.net.inject, a, conflict_pkt(desc.name, 1), ("10.0.0.60", 5353))
             w.advance_to_ms(t0)
